@@ -46,32 +46,6 @@ fn tinylfu_builder_validates() {
     }
 }
 
-// configs: nostd (the std sketch constructor seeds itself from SystemTime + StdRng, which Kani cannot execute; the sizing code is the same)
-#[kani::proof]
-#[kani::unwind(10)]
-fn tinylfu_new_small_sizes() {
-    // sizes 1..=8 with a concrete ratio: construction succeeds and every operation is panic-free
-    let size: usize = kani::any();
-    kani::assume(size >= 1 && size <= 8);
-    kani::cover!(size == 1, "TinyLFU with sketch size 1");
-    let mut t = TinyLFUBuilder::<u8, ByteKeyHasher>::with_hasher(ByteKeyHasher).set_size(size).set_samples(2).set_false_positive_ratio(0.5).finalize();
-    match t {
-        Ok(ref mut t) => {
-            let v = t.verif_abs();
-            assert!(v.width >= 2 && (v.width & (v.width - 1)) == 0 && v.width >= size, "[C05.ctor][C11.width] the sketch has a power-of-two number (>= 2, >= size) of counters per row");
-            let h: u64 = kani::any();
-            t.increment_hashed_key(h);
-            let e = t.estimate_hashed_key(h);
-            assert!(e >= 1 && e <= 16, "[C05.ops][C11.range] estimate after one recorded access is between 1 and 16");
-            t.try_reset();
-            t.clear();
-            assert!(t.estimate_hashed_key(h) == 0, "[C11.clear] estimate is 0 right after clear");
-        }
-        Err(_) => assert!(false, "[C05.ctor] sizes >= 1 with valid samples and ratio construct successfully"),
-    }
-    core::mem::forget(t);
-}
-
 #[kani::proof]
 #[kani::unwind(10)]
 fn tinylfu_clone_is_identical_then_independent() {
